@@ -375,6 +375,19 @@ def run_c14(tier, seed, replay=None):
         exp = [str(v)] + ([str(v + 10)] if len(branches) == 3 else [])
         cases.append(mk_case(DEFS + [spinc, ping, pong], ["q"], [["cond"] + branches], maxans=len(exp), budget=1500, no_ref=True, expect_values=exp,
                              what="a disjunction with a silently diverging closure-style relation next to finite branches"))
+    # project over SEVERAL variables (1-4): each name in the body denotes the walked value of ITS variable, in the order written
+    for _ in range(max(10, n // 20)):
+        k = rnd.randint(1, 4)
+        names = ["a", "b", "c", "d"][:k]
+        vals = rnd.sample(range(1, 9), k)
+        order = list(range(k)); rnd.shuffle(order)
+        binds = [["eq", names[i], vals[i]] for i in order]
+        if rnd.random() < 0.3:
+            binds[0] = ["lib", "member", binds[0][1], ["list", binds[0][2], binds[0][2] + 10]]
+        body = rnd.choice([[["eq", "q", ["list"] + names]], [["eq", names[-1], vals[-1]], ["eq", "q", names[0]]],
+                           [["eq", "q", ["list"] + list(reversed(names))]]])
+        cases.append(mk_case(DEFS, ["q"], [["fresh", names] + binds + [["project", names] + body]], maxans=12, budget=1500,
+                             what="project over several variables: each name denotes the value of its own variable"))
     # operands that are written identically are not therefore the same term: every `_` is a new variable
     for _ in range(n // 6):
         t = rnd.choice(["_", ["ilist", "_", "q"], ["list", "_", 1], ["cons", "_", "_"], ["comp", "Pair", "_", "q"], ["list", "q", "_"],
@@ -421,6 +434,19 @@ def run_c13(tier, seed, replay=None):
         pre = rnd.choice([[], [["eq", "y", 2]], [["eq", "x", 7]]])
         cases.append(mk_case([MEM], ["q", "r"], [["fresh", ["x", "y"], ["eq", "q", val]] + pre + [[op, "q"] + arms]], maxans=20, budget=2000,
                              what="an alternative's own names must be new and the names it does not bind must denote the enclosing variables"))
+    # committed-choice matches: an arm whose pattern matches commits even when its body can never succeed (a literal false,
+    # first, last or between other goals); later arms must not be tried
+    for _ in range(n // 5):
+        op = rnd.choice(["matcha", "matchu"])
+        val = rnd.choice(["nil", ["list", 1], ["list", 1, 2], 5])
+        dead_body = rnd.choice([["false"], [["eq", "r", 1], "false"], ["false", ["eq", "r", 1]], [["eq", "r", 1], "false", ["eq", "r", 2]]])
+        first_pat = rnd.choice(["nil", ["ilist", "h", "t"], ["list", "a"], "_", 5, "w"])
+        arms = [["arm", ["pats", first_pat]] + dead_body,
+                ["arm", ["pats", "_"], ["eq", "r", 7]]]
+        if rnd.random() < 0.4:
+            arms.insert(0, ["arm", ["pats", ["list", 9, 9]], ["eq", "r", 9]])
+        cases.append(mk_case([MEM], ["q", "r"], [["eq", "q", val], [op, "q"] + arms], maxans=20, budget=2000,
+                             what="a committed-choice match whose first matching arm has a body that cannot succeed must have no answers from later arms"))
     return run_compiled("C13", tier, seed, cases, oracle_ref,
         "random match / matche / matcha / matchu expressions: 1-3 arms, patterns of depth <= 2 (names, _, literals, [], proper and improper "
         "lists, compound patterns), alternatives p1 | p2 with equal variable sets, repeated names, pattern names shadowing outer names, "
